@@ -251,6 +251,46 @@ def construct_name(n):
     return 'fn:' + n[1] if n[0] == 'call' else n[0]
 
 
+def _free_names(n, bound=frozenset()):
+    if not (isinstance(n, list) and n and isinstance(n[0], str)):
+        return set()
+    t = n[0]
+    if t == 'var':
+        return set() if n[1] in bound else {n[1]}
+    if t in ('str', 'dec', 'dbl', 'flt', 'unt', 'nodes', 'int', 'bool', 'empty', 'ctx', 'pos', 'last'):
+        return set()
+    out = set()
+    if t in ('for', 'let', 'some', 'every'):
+        b = set(bound)
+        for nm, e in n[1]:
+            out |= _free_names(e, frozenset(b))
+            b.add(nm)
+        return out | _free_names(n[2], frozenset(b))
+    for c in (n[2] if t == 'call' else n[1:]):
+        if isinstance(c, list):
+            out |= _free_names(c, bound)
+    return out
+
+
+def range_uses_rebound_name(n, bound=frozenset()):
+    """a for/some/every clause `$x in E` where E refers to an OUTER $x (legal XPath: E is evaluated in the outer scope)"""
+    if not (isinstance(n, list) and n and isinstance(n[0], str)):
+        return False
+    t = n[0]
+    if t in ('str', 'dec', 'dbl', 'flt', 'unt', 'nodes', 'var', 'int', 'bool', 'empty', 'ctx', 'pos', 'last'):
+        return False
+    if t in ('for', 'let', 'some', 'every'):
+        b = set(bound)
+        for nm, e in n[1]:
+            if t != 'let' and nm in b and nm in _free_names(e):
+                return True
+            if range_uses_rebound_name(e, frozenset(b)):
+                return True
+            b.add(nm)
+        return range_uses_rebound_name(n[2], frozenset(b))
+    return any(range_uses_rebound_name(c, bound) for c in (n[2] if t == 'call' else n[1:]) if isinstance(c, list))
+
+
 def has_shadowing(n, bound=frozenset()):
     """a for/let/some/every clause binds a name that is already bound where the binder stands"""
     if not (isinstance(n, list) and n and isinstance(n[0], str)):
@@ -426,6 +466,8 @@ def judge_one(ast, v, check, localize=True):
     discs: list[Disc] = []
 
     def bucket(kind, node=ast):
+        if kind == 'unexpected-error:XPST0008' and range_uses_rebound_name(node):
+            return 'C08/range-uses-rebound-name/unexpected-error:XPST0008'
         if kind == 'float32-precision':      # one root cause (xs:float kept in binary64) whatever the construct
             return f'C08/float32-precision/{construct_name(node)}'
         sig = arg_signature(node, v)
@@ -724,7 +766,7 @@ def _grid_values(size):
         out.append(['dec', s if '.' in s else s + '.0'])
         if '.' not in s:
             out.append(['int', int(s)])
-    out += [['dbl', 'INF'], ['dbl', '-INF'], ['dbl', 'NaN'], ['flt', 'INF'], ['flt', 'NaN']]
+    out += [['dbl', 'INF'], ['dbl', '-INF'], ['dbl', 'NaN']]
     return out
 
 
